@@ -537,8 +537,11 @@ func (t *Transport) newClientConn(c net.Conn, singleUse bool, internalStateHook 
 
 	cc.bw.Write(clientPreface)
 	cc.fr.WriteSettings(initialSettings...)
-	cc.fr.WriteWindowUpdate(0, uint32(conf.MaxUploadBufferPerConnection))
-	cc.inflow.init(conf.MaxUploadBufferPerConnection + initialWindowSize)
+	// The connection window starts at initialWindowSize and can grow to at
+	// most 2^31-1.
+	connWindowIncr := min(conf.MaxUploadBufferPerConnection, math.MaxInt32-initialWindowSize)
+	cc.fr.WriteWindowUpdate(0, uint32(connWindowIncr))
+	cc.inflow.init(connWindowIncr + initialWindowSize)
 	cc.bw.Flush()
 	if cc.werr != nil {
 		cc.Close()
